@@ -25,6 +25,7 @@ type C13Step struct {
 	Op   string `json:"op"` // listen | async | sync | connect | inbound | closechan | peerclose | lclose | shutdown | release | acceptrelease | stallwrite
 	I    int    `json:"i,omitempty"`
 	Hold bool   `json:"hold,omitempty"` // executor actions submitted during this step are held until released
+	Fail bool   `json:"fail,omitempty"` // async/sync: the first start fails in the bind (address in use); the same Listener is started once more right away
 	Slow bool   `json:"slow,omitempty"` // async/sync: the factory's Listen parks until an "open" step (or the end); inbound: Accept has taken the connection but returns it only at an "acceptrelease" step (or the end)
 }
 
@@ -32,6 +33,9 @@ type C13Case struct {
 	Queue  int       `json:"queue"` // 0 = synchronous channels
 	Steps  []C13Step `json:"steps"`
 	Parent bool      `json:"parent,omitempty"` // the bootstrap is built WithContext(parent); a "cancelparent" step cancels the parent
+	// ActivePanics: a handler behind the recorders panics in HandleActive for every second channel; the exception handler
+	// logs it and keeps the channel open
+	ActivePanics bool `json:"activepanics,omitempty"`
 }
 
 type gatedAction struct {
@@ -114,6 +118,7 @@ func genC13(t *rapid.T) C13Case {
 	var c C13Case
 	c.Queue = rapid.SampledFrom([]int{0, 0, 8}).Draw(t, "queue")
 	c.Parent = rapid.IntRange(0, 3).Draw(t, "parent") == 1
+	c.ActivePanics = rapid.IntRange(0, 3).Draw(t, "activepanics") == 1
 	nl := 0
 	n := rapid.IntRange(1, 12).Draw(t, "nsteps")
 	shutdownAt := rapid.IntRange(0, n).Draw(t, "shutdownat")
@@ -139,6 +144,7 @@ func genC13(t *rapid.T) C13Case {
 			st.Op = rapid.SampledFrom([]string{"async", "async", "async", "sync", "listen"}).Draw(t, "lmode")
 			st.Hold = rapid.Bool().Draw(t, "hold")
 			st.Slow = st.Op != "listen" && rapid.IntRange(0, 3).Draw(t, "slow") == 0
+			st.Fail = st.Op != "listen" && !st.Slow && !st.Hold && rapid.IntRange(0, 4).Draw(t, "failfirst") == 0
 		case "connect", "inbound":
 			st.Hold = rapid.IntRange(0, 2).Draw(t, "hold") == 0
 			st.Slow = st.Op == "inbound" && !after && rapid.IntRange(0, 2).Draw(t, "slowaccept") == 0
@@ -188,8 +194,21 @@ func runC13(c C13Case) (out core.Outcome) {
 				panic(err)
 			}
 		}), netty.ExceptionHandlerFunc(func(ctx netty.ExceptionContext, ex netty.Exception) {
+			if ex != nil && strings.Contains(ex.Error(), "verif: active handler panic") {
+				return // logged, the channel stays open
+			}
 			ctx.Close(ex)
 		}))
+		if c.ActivePanics {
+			mu.Lock()
+			k := len(chans)
+			mu.Unlock()
+			if k%2 == 1 {
+				ch.Pipeline().AddLast(netty.ActiveHandlerFunc(func(ctx netty.ActiveContext) {
+					panic(fmt.Errorf("verif: active handler panic"))
+				}))
+			}
+		}
 	}
 	chFactory := netty.NewChannel()
 	if c.Queue > 0 {
@@ -199,6 +218,9 @@ func runC13(c C13Case) (out core.Outcome) {
 		netty.WithChildInitializer(initializer), netty.WithClientInitializer(initializer)}
 	parentCtx, parentCancel := context.WithCancel(context.Background())
 	defer parentCancel()
+	if c.ActivePanics {
+		cls.Add("active-handler-panics")
+	}
 	if c.Parent {
 		opts = append(opts, netty.WithContext(parentCtx))
 		cls.Add("with-parent-context")
@@ -252,6 +274,15 @@ func runC13(c C13Case) (out core.Outcome) {
 				return
 			}
 			listeners = append(listeners, l)
+			if st.Fail {
+				// first start: the bind fails; the application retries with the same Listener object
+				factory.FailNextListen(url)
+				if err := l.l.Sync(); err == nil {
+					out.Inconclusive = what + ": Sync did not report the listen failure"
+					return
+				}
+				cls.Add("listener-started-again-after-failed-bind")
+			}
 			switch st.Op {
 			case "async":
 				l.started = true
